@@ -72,12 +72,13 @@ def suite_for(seed, k=0):
 
 
 # ----------------------------------------------------------------- console properties
-def console_check(pid, tier, seed, work, mc_cfgs, fam_specs, level_note):
+def console_check(pid, tier, seed, work, mc_cfgs, fam_specs, level_note, hs_fams=()):
     t0 = time.time()
     mcs = []
     for module, cfg in mc_cfgs:
         mcs.append(F.model_check(module, cfg, work))
     fams = [F.console_family(work, **fs) for fs in fam_specs]
+    fams += [F.handshake_family(work, **fs) for fs in hs_fams]
     require_accepted(fams)
     viols = []
     for f in fams:
@@ -121,7 +122,8 @@ def c09(tier, seed, work):
                 dict(name="c09-sess2", insess=True, cmds="CmdsAR", maxcalls=3, maxatt=2, kinds="KindsRetry", auth=a2, integ=i2),
                 dict(name="c09-nosess", insess=False, cmds="CmdsAB", maxcalls=2, maxatt=3, kinds="KindsRetryNS", auth=1, integ=1)]
         mc = [("MCConsole", "MC_Console_sess.cfg"), ("MCConsole", "MC_Console_nosess.cfg")]
-    return console_check("C09", tier, seed, work, mc, fams, COMMON_ASSUME)
+    return console_check("C09", tier, seed, work, mc, fams, COMMON_ASSUME,
+                         hs_fams=[dict(name="c09-hs-retry", family="retry", tier=tier, seed=seed)])
 
 
 def c10(tier, seed, work):
@@ -136,19 +138,25 @@ def c10(tier, seed, work):
                 dict(name="c10-nosess", insess=False, cmds="CmdsAB", maxcalls=2, maxatt=3, kinds="KindsRetryNS", auth=1, integ=1),
                 dict(name="c10-nosessR", insess=False, cmds="CmdsAR", maxcalls=1, maxatt=4, kinds="KindsSessionless", auth=1, integ=1)]
         mc = [("MCConsole", "MC_Console_sess.cfg"), ("MCConsole", "MC_Console_nosess.cfg")]
-    return console_check("C10", tier, seed, work, mc, fams, COMMON_ASSUME)
+    return console_check("C10", tier, seed, work, mc, fams, COMMON_ASSUME,
+                         hs_fams=[dict(name="c10-hs-retry", family="retry", tier=tier, seed=seed)])
 
 
 def c11(tier, seed, work):
     a, i = suite_for(seed, 2)
+    pairs = ["CmdsAB", "CmdsAR", "CmdsGH"]
     if tier == "quick":
-        fams = [dict(name="c11-sess", insess=True, cmds="CmdsABR", maxcalls=2, maxatt=2, kinds="KindsDesync", auth=a, integ=i),
-                dict(name="c11-nosess", insess=False, cmds="CmdsABR", maxcalls=2, maxatt=2, kinds="KindsDesync", auth=1, integ=1)]
+        fams = [dict(name="c11-sess", insess=True, cmds=pairs[seed % 3], maxcalls=2, maxatt=2, kinds="KindsDesync", auth=a, integ=i, codes="CodesOkBusy"),
+                dict(name="c11-nosess", insess=False, cmds=pairs[(seed + 1) % 3], maxcalls=2, maxatt=2, kinds="KindsDesync", auth=1, integ=1, codes="CodesOkBusy"),
+                dict(name="c11-third", insess=(seed % 2 == 0), cmds=pairs[(seed + 2) % 3], maxcalls=2, maxatt=2, kinds="KindsDesync", auth=a, integ=i, codes="CodesOkBusy")]
         mc = [("MCConsole", "MC_Console_sess_quick.cfg"), ("MCConsole", "MC_Console_nosess_quick.cfg")]
     else:
-        fams = [dict(name="c11-sess", insess=True, cmds="CmdsABR", maxcalls=2, maxatt=3, kinds="KindsDesync", auth=a, integ=i),
-                dict(name="c11-nosess", insess=False, cmds="CmdsABR", maxcalls=2, maxatt=3, kinds="KindsDesync", auth=1, integ=1),
-                dict(name="c11-sess3", insess=True, cmds="CmdsAB", maxcalls=3, maxatt=2, kinds="KindsDesync", auth=a, integ=i)]
+        fams = [dict(name="c11-sess", insess=True, cmds="CmdsABR", maxcalls=2, maxatt=2, kinds="KindsDesync", auth=a, integ=i),
+                dict(name="c11-nosess", insess=False, cmds="CmdsABR", maxcalls=2, maxatt=2, kinds="KindsDesync", auth=1, integ=1),
+                dict(name="c11-sess3", insess=True, cmds="CmdsAB", maxcalls=2, maxatt=3, kinds="KindsDesync", auth=a, integ=i, codes="CodesOkBusy"),
+                dict(name="c11-nosess3", insess=False, cmds="CmdsAR", maxcalls=3, maxatt=2, kinds="KindsDesync", auth=a, integ=i, codes="CodesOkBusy"),
+                dict(name="c11-group-s", insess=True, cmds="CmdsAGH", maxcalls=2, maxatt=2, kinds="KindsDesync", auth=a, integ=i),
+                dict(name="c11-group-n", insess=False, cmds="CmdsAGH", maxcalls=2, maxatt=2, kinds="KindsDesync", auth=1, integ=1)]
         mc = [("MCConsole", "MC_Console_sess.cfg"), ("MCConsole", "MC_Console_nosess.cfg")]
     return console_check("C11", tier, seed, work, mc, fams, COMMON_ASSUME)
 
